@@ -400,8 +400,15 @@ func (h hooks) OnFinished(ctx context.Context, ds resolve.DataSourceInfo, info *
 		return
 	}
 	a := h.s.actors[id]
+	var se *resolve.SubgraphError
 	if info.Err != nil {
 		a.loadRes = classify(info.Err)
+		if strings.HasPrefix(a.loadRes, "(err other") && errors.As(info.Err, &se) && se.Reason == "empty response" &&
+			info.GetResponseBody() == "" {
+			// loadByContext returned neither bytes nor an error (res.out = nil, res.err = nil): the loader reports that
+			// as an "empty response" of the subgraph
+			a.loadRes = common.L("wrote", common.QS(""))
+		}
 	} else {
 		a.loadRes = common.L("wrote", common.QS(info.GetResponseBody()))
 	}
